@@ -8,8 +8,20 @@ executor's protocol is dropped by `model_line`):
   predict <vec coef> <vec x>           -> `= <vec>`
   fitpred <deg> <vec x> <vec y> <vec xs> -> `= <vec coef> <vec pred>`
   vander <n> <vec x>                   -> `= <vec>`
+  refit <deg> <k> (<vec x> <vec y>)*k  -> `= <vec coef>`*k : one regressor fitted k times.  The only state `fit`
+        keeps is `coef.len()` (the number of Vandermonde columns of the next fit), modelled as such.
 -/
 open Cv
+
+def c14Refit : Nat → List (List Float × List Float) → Option (List String)
+  | _, [] => some []
+  | p, (x, y) :: rest =>
+    match Poly.fit p x y with
+    | none => none
+    | some c =>
+      match c14Refit c.length rest with
+      | none => none
+      | some out => some (showVec c :: out)
 
 def c14Step (args : List String) : String :=
   match args with
@@ -27,6 +39,14 @@ def c14Step (args : List String) : String :=
       match Poly.fit (d + 1) x y with
       | some c => ok (showVec c ++ " " ++ showVec (Poly.predict c xs))
       | none => panicked
+  | "refit" :: rest =>
+    withArgs (do
+      let d ← pNat; let k ← pNat
+      let sets ← pMany (do let x ← pVec; let y ← pVec; pure (x, y)) k
+      pure (d, sets)) rest fun (d, sets) =>
+      match c14Refit (d + 1) sets with
+      | none => panicked
+      | some out => ok (" ".intercalate out)
   | "vander" :: rest =>
     withArgs (do let n ← pNat; let x ← pVec; pure (n, x)) rest fun (n, x) =>
       ok (showVec (Poly.vandermonde x n))
